@@ -136,6 +136,18 @@ def run(ctx):
                        "<= baseline %d%s (undecided, not claimed safe)" % (b, " (re-anchored from %s)" % moved_from if moved_from else ""), loc)
     ctx.count("baseline_sites_undecided", unproven)
 
+    # ---------------------------------------------------------------- no endless loop on a truncated stream
+    ctx.rule("C15.L", "fill_buf scanning loops terminate at end of stream: an exit edge of every loop around fill_buf is controlled by the "
+                      "emptiness of the window")
+    from .. import a5
+    a5.fill_loop_eof_rule(ctx, "C15.L", 15)
+
+    # ---------------------------------------------------------------- field bounds stay inside the buffer
+    ctx.rule("C15.P", "A10 line-ending strip: a CR popped from a caller-provided buffer was read by the same call (count >= 2 guard), or every "
+                      "caller hands over an empty buffer: otherwise the recorded end of an earlier field lies past the buffer and its accessor panics")
+    from .. import a10
+    a10.cr_pop_rule(ctx, "C15.P", r"^<?noodles_", 20)
+
     # ---------------------------------------------------------------- guards that keep lazy views / cursors safe
     ctx.rule("C15.G", "guards: BAM read_record validates before exposing a RecordRef; BGZF seek bounds the cursor (C02.R2)")
     R.must_pass(ctx, "C15.G", "noodles_bam::io::reader::record::read_record", r"noodles_bam::io::reader::record::validate$",
